@@ -137,7 +137,7 @@ package dispatch
 // C06: the group an alert belongs to under a route is determined by exactly the alert's values of the route's
 // group_by labels (all of its labels for '...').
 //@ func getGroupLabels
-//@   props C06
+//@   props C06 C07
 //@   requires alert != nil && route != nil
 //@   ensures [fresh] fresh(result)
 //@   ensures [exact-labels] forall ln model.LabelName :: (ln in result) == (ln in alert.Labels && (route.RouteOpts.GroupByAll || ln in route.RouteOpts.GroupBy))
@@ -216,7 +216,7 @@ package dispatch
 //@   noeffect newAggrGroup aggrGroup).insert runAG resetTimer cancel Route).Key MaxNumberOfAggregationGroups
 
 //@ func (*Dispatcher).doMaintenance$1
-//@   props C06
+//@   props C06 C14
 //@   abstract
 //@   nosafe
 //@   at call sync.Map).CompareAndDelete assert [delete-only-destroyed] called("aggrGroup).destroyed") && ret("aggrGroup).destroyed")
